@@ -12,9 +12,14 @@ What is a parameter / contract (DESIGN 4.4), not transcribed:
 * `Memoizable::construct` is the field `Ext.construct : σ → L → τ → α → Except ε ι × σ`: an arbitrary function of an
   abstract external world `σ` (so it may fail, fail-then-succeed, hand out serial numbers …).  Callbacks
   (`FnOnce(&I) -> R`) are arbitrary functions `ι → σ → ρ × σ` carried by the operation.  Neither can touch the
-  memoizer: **re-entrancy is outside the model** (sequential: `try_borrow_mut().expect(..)` would panic; concurrent:
-  `Mutex::lock` would dead-lock or panic), and so is a panic inside `construct`/callback (which would poison the
-  mutex; `lock().unwrap()`).
+  memoizer: **re-entrancy into the same `IntlLangMemoizer` is outside the model** (sequential:
+  `try_borrow_mut().expect(..)` would panic; concurrent: `Mutex::lock` would dead-lock or panic), and so is a panic
+  inside `construct`/callback (which would poison the mutex; `lock().unwrap()`).
+* One kind of re-entrancy IS modelled: a callback may call `IntlMemoizer::get_for_lang(lang)` for its own
+  language while `with_try_get` is active on its memoizer (the per-language table is a different object from the
+  memoizer's `RefCell`, so this is legal), compare the returned `Rc` with the one it runs on and drop it before
+  returning: `MOp.lookupReenter` (= `lookup`, then – only if the callback ran – `getStep`, `dropStep` of the handle
+  just obtained; the client's handle list is restored, so later handles keep their numbers).
 * `type_map::TypeMap` and `std::collections::HashMap` are finite maps: association lists `aget`/`aset`/`aerase`
   (first match wins; the laws are proved in `FluentProofs/Memo.lean`).  A type tag `τ` stands for Rust's `TypeId`.
 * `Clone` of `LanguageIdentifier` / `Args` yields an equal value (the key stored = the key passed to `construct`).
@@ -178,6 +183,10 @@ inductive MOp (σ L τ α ι ρ : Type) where
   | drop (h : Nat)
   /-- `handle_h.with_try_get(..)` -/
   | lookup (h : Nat) (op : Op σ τ α ι ρ)
+  /-- `handle_h.with_try_get(..)` whose callback, while the lookup is active, calls
+  `memoizer.get_for_lang(lang of handle h)`, compares the returned `Rc` with handle `h` (`Rc::ptr_eq`) and drops
+  it before returning -/
+  | lookupReenter (h : Nat) (op : Op σ τ α ι ρ)
 
 inductive MObs (L τ α ι ε ρ : Type) where
   /-- new handle `h` refers to allocation `oid` -/
@@ -188,6 +197,15 @@ inductive MObs (L τ α ι ε ρ : Type) where
   | res (out : Outcome ε ρ) (ev : Option (Event L τ α ι ε))
   /-- a live handle whose allocation is gone: use-after-free; proved unreachable -/
   | dangling
+  /-- result of `lookupReenter`: the ordinary lookup result and what the callback's inner `get_for_lang` found:
+  `none` – the callback never ran (construction failed, `?`), so there was no inner call;
+  `some b` – the inner call ran, and `b` = "the allocation it returned is the allocation of handle `h`" -/
+  | resReenter (out : Outcome ε ρ) (ev : Option (Event L τ α ι ε)) (same : Option Bool)
+
+/-- the allocation a `handle` observation reports -/
+def MObs.allocId {L τ α ι ε ρ : Type} : MObs L τ α ι ε ρ → Option Nat
+  | .handle _ oid => some oid
+  | _ => none
 
 section Intl
 variable {σ L τ α ι ε ρ : Type} [DecidableEq L] [DecidableEq τ] [DecidableEq α]
@@ -204,38 +222,75 @@ def allocFresh (s : MState σ L τ α ι ε) (l : L) (register : Bool) : MState 
       handles := s.handles ++ [some s.next] },
    .handle s.handles.length s.next)
 
+/-- `IntlMemoizer::get_for_lang(l)` (lib.rs:333-350) -/
+def getStep (s : MState σ L τ α ι ε) (l : L) : MState σ L τ α ι ε × MObs L τ α ι ε ρ :=
+  match aget s.table l with
+  | none => allocFresh s l true                       -- `Entry::Vacant`
+  | some oid =>                                       -- `Entry::Occupied`
+    match aget s.heap oid with                        -- `entry.get().upgrade()`
+    | some o =>
+      ({ s with heap := aset s.heap oid { o with strong := o.strong + 1 }
+                handles := s.handles ++ [some oid] },
+       .handle s.handles.length oid)
+    | none => allocFresh s l true                     -- `entry.insert(Rc::downgrade(&e))`
+
+/-- `drop(handle h)`: `Rc::drop` -/
+def dropStep (s : MState σ L τ α ι ε) (h : Nat) : MState σ L τ α ι ε × MObs L τ α ι ε ρ :=
+  match s.handles[h]? with
+  | some (some oid) =>
+    match aget s.heap oid with
+    | some o =>
+      if o.strong ≤ 1 then
+        ({ s with heap := aerase s.heap oid, handles := s.handles.set h none }, .dropped)
+      else
+        ({ s with heap := aset s.heap oid { o with strong := o.strong - 1 }
+                  handles := s.handles.set h none }, .dropped)
+    | none => ({ s with handles := s.handles.set h none }, .dangling)
+  | _ => (s, .dead)
+
+/-- `handle_h.with_try_get(..)` -/
+def lookupStep (X : Ext σ L τ α ι ε) (s : MState σ L τ α ι ε) (h : Nat) (op : Op σ τ α ι ρ) :
+    MState σ L τ α ι ε × MObs L τ α ι ε ρ :=
+  match s.handles[h]? with
+  | some (some oid) =>
+    match aget s.heap oid with
+    | some o =>
+      let r := withTryGet X o.lang o.memo s.world op
+      ({ s with heap := aset s.heap oid { o with memo := r.memo }, world := r.world }, .res r.out r.ev)
+    | none => (s, .dangling)
+  | _ => (s, .dead)
+
+/-- what the re-entrant callback does besides computing its result, in the state `s` in which it runs (the
+instance is inserted already, the handle of allocation `oid` – whose language is `l` – is alive):
+`let again = outer.get_for_lang(l); let same = Rc::ptr_eq(&again, &handle); drop(again)`.
+The `Rc` is a temporary of the callback, not one of the client's handles: it is handle number `s.handles.length`
+only while the callback runs, afterwards the handle list is `s.handles` again.  `heap` (strong counts), `table`
+and `next` are whatever `get_for_lang` + `drop` leave behind. -/
+def reenterStep (ρ : Type) (s : MState σ L τ α ι ε) (l : L) (oid : Nat) : MState σ L τ α ι ε × Bool :=
+  let g := getStep (ρ := ρ) s l
+  let d := dropStep (ρ := ρ) g.1 s.handles.length
+  ({ d.1 with handles := s.handles }, g.2.allocId == some oid)
+
 def mstep (X : Ext σ L τ α ι ε) (s : MState σ L τ α ι ε) :
     MOp σ L τ α ι ρ → MState σ L τ α ι ε × MObs L τ α ι ε ρ
-  | .getForLang l =>
-    match aget s.table l with
-    | none => allocFresh s l true                       -- `Entry::Vacant`
-    | some oid =>                                       -- `Entry::Occupied`
-      match aget s.heap oid with                        -- `entry.get().upgrade()`
-      | some o =>
-        ({ s with heap := aset s.heap oid { o with strong := o.strong + 1 }
-                  handles := s.handles ++ [some oid] },
-         .handle s.handles.length oid)
-      | none => allocFresh s l true                     -- `entry.insert(Rc::downgrade(&e))`
+  | .getForLang l => getStep s l
   | .newLang l => allocFresh s l false
-  | .drop h =>
-    match s.handles[h]? with
-    | some (some oid) =>
-      match aget s.heap oid with
-      | some o =>
-        if o.strong ≤ 1 then
-          ({ s with heap := aerase s.heap oid, handles := s.handles.set h none }, .dropped)
-        else
-          ({ s with heap := aset s.heap oid { o with strong := o.strong - 1 }
-                    handles := s.handles.set h none }, .dropped)
-      | none => ({ s with handles := s.handles.set h none }, .dangling)
-    | _ => (s, .dead)
-  | .lookup h op =>
+  | .drop h => dropStep s h
+  | .lookup h op => lookupStep X s h op
+  | .lookupReenter h op =>
     match s.handles[h]? with
     | some (some oid) =>
       match aget s.heap oid with
       | some o =>
         let r := withTryGet X o.lang o.memo s.world op
-        ({ s with heap := aset s.heap oid { o with memo := r.memo }, world := r.world }, .res r.out r.ev)
+        -- the state in which the callback runs: lookup / construct / insert are done, handle `h` is alive
+        let s1 : MState σ L τ α ι ε :=
+          { s with heap := aset s.heap oid { o with memo := r.memo }, world := r.world }
+        match r.out with
+        | .err _ => (s1, .resReenter r.out r.ev none)          -- `construct(..)?` failed: no callback
+        | .ok _ =>
+          let e := reenterStep ρ s1 o.lang oid
+          (e.1, .resReenter r.out r.ev (some e.2))
       | none => (s, .dangling)
     | _ => (s, .dead)
 
